@@ -13,7 +13,10 @@ def admin_history(rng, n, keys, subject, sticky):
         r = rng.random()
         k = rng.choice(keys)
         if r < 0.30:
-            steps.append({"op": "upsert", "k": k, "v": rng.randrange(5), "w": rng.choice([-1, -1, 0, 1, 2, 3, 5, 8])})
+            st = {"op": "upsert", "k": k, "v": rng.randrange(5), "w": rng.choice([-1, -1, 0, 1, 2, 3, 5, 8])}
+            if subject != "rr" and rng.random() < 0.2:
+                st["meterfail"] = True     # the rebalancer's meter factory fails during this call: a new server is refused
+            steps.append(st)
         elif r < 0.45:
             steps.append({"op": "remove", "k": k, "v": rng.randrange(5)})
         elif r < 0.70 and subject == "rr":
@@ -80,6 +83,8 @@ def scenarios(ctx):
                     steps.append({"op": "adv", "d": rng.choice([1, 2, 2, 11])})
             elif x < 0.8:
                 steps.append({"op": "upsert", "k": rng.choice(keys), "v": 0, "w": rng.choice([0, 0, 1, 2, 4])})
+            elif x < 0.84:
+                steps.append({"op": "upsert", "k": rng.choice(R.KEYS[:6]), "v": 0, "w": rng.choice([1, 2]), "meterfail": True})
             elif x < 0.9:
                 steps.append({"op": "remove", "k": rng.choice(keys), "v": 0})
             else:
